@@ -424,7 +424,7 @@ def gen_cases(tier, seed):
                    "terms2": rand_conserving_terms(r, sym, modes, spf, int(r.integers(1, 4)), 4), "seed": int(r.integers(2**31))}
 
     # ---- seeded random part, interleaved
-    n_rand = 3000 if quick else 60000
+    n_rand = 6000 if quick else 60000
     lays = layouts(max_modes)
     klays = site_kinds_layouts(max_modes)
     for i in range(n_rand):
